@@ -58,7 +58,7 @@ def newer_spec(v, sn):
     if v == 7:
         return ('l', [('l', [], None), ('s', 5), ('m', [], None)], sn)      # empty containers as elements of a newer list
     if v == 6:
-        return ('m', [('l', ('l', [('s', 0)], None)), ('e', ('s', '', None, "''")), ('f', ('s', False, None, 'false')), ('h', ('s', None, None, 'null')), ('g', ('s', 0))], sn)
+        return ('m', [('l', ('l', [('s', 0)], None)), ('e', ('s', '', ('se', {'priority': -1}), "''")), ('f', ('s', False, None, 'false')), ('h', ('s', None, None, 'null')), ('g', ('s', 0))], sn)
     raise ValueError(v)
 
 
